@@ -425,6 +425,28 @@ async def run_plan(net, hyg, plan):
             ldest = plan.get("ldest", "")
             lwi = plan.get("lwrite_into", False)
             lbase = lroot / "down"
+            if plan.get("lstale"):
+                # an earlier copy is already at the local destination: same layout, every file with other (longer) content
+                rname0 = posixpath.basename(root)
+                base0 = "/down" + ("/" + ldest if ldest else "") + ("" if lwi else "/" + rname0)
+                stale = {}
+                if want[root] != DIR:
+                    stale[base0] = b"stale copy, longer than what the server holds now " * 3
+                else:
+                    stale[base0] = DIR
+                    for k_, v_ in want.items():
+                        if k_.startswith(root.rstrip("/") + "/"):
+                            stale[base0 + k_[len(root.rstrip("/")):]] = DIR if v_ == DIR else b"stale copy, longer than what the server holds now " * 3
+                q0 = posixpath.dirname(base0)
+                while q0 not in ("/", ""):
+                    stale.setdefault(q0, DIR)
+                    q0 = posixpath.dirname(q0)
+                stale = dict(sorted(stale.items()))
+                if local_fs:
+                    fs_populate(lroot, stale)
+                else:
+                    memory_populate(c.path_io.fs, {"/local" + k_: v_ for k_, v_ in stale.items()})
+                mon["download_over_stale_copy"] = mon.get("download_over_stale_copy", 0) + 1
             try:
                 await c.download(root, lbase / ldest if ldest else lbase, write_into=lwi, block_size=plan.get("block", 8192))
             except Exception as e:
@@ -513,7 +535,7 @@ def gen_cases(tier, seed):
                 "op": rng.choice(["upload", "upload", "list", "remove", "download", "download"]),
                 "block": rng.choice([1, 7, 8192]), "server_block": rng.choice([7, 8192]),
                 "ldest": rng.choice(["", "ld", "ld/deeper"]), "lwrite_into": rng.random() < 0.5,
-                "merge": rng.random() < 0.3, "remove_cwd": rng.choice(["outside", "outside", "root", "child"]),
+                "merge": rng.random() < 0.3, "remove_cwd": rng.choice(["outside", "outside", "root", "child"]), "lstale": rng.random() < 0.35,
                 "local": "fs" if (tier == "thorough" and i % 5 == 0) or (tier == "quick" and i % 25 == 0) else "memory"}
         if src_is_file:
             plan["tree"] = None
